@@ -27,6 +27,9 @@ theorem extract0_append_le (a b : ByteArray) (n : Nat) (h : n ≤ a.size) :
     rw [ByteArray.extract_eq_empty_iff]; omega
   rw [this]; simp
 
+/-- the strict reader never applies the torn-record-in-a-zero-extended-file rule -/
+theorem tornZero_false (f : ByteArray) (base off size : Nat) : tornZero false f base off size = false := rfl
+
 /-! ## one chunk, cut short -/
 
 /-- a chunk cut strictly short (anywhere in its header or payload, or entirely absent) at the end
@@ -404,7 +407,7 @@ theorem chunkSeq_cut_strict (pre p : ByteArray) (t : CT) (block off k : Nat)
     rw [extract_all _ _ (by omega)]
   rw [hex, C.dec_short t p k hp hk]
   simp only []
-  rw [hnz, if_neg (by simp)]
+  rw [hnz, tornZero_false, if_neg (by simp)]
 
 /-- strict reader: a strict prefix of a block-aligned run of Middle…Last chunks that ends inside a
     chunk (not at a block boundary) whose present bytes are not all zero is an error -/
